@@ -220,13 +220,38 @@ func runC06(r *Rng, n int, replay string) {
 			}
 			b := fw.Apply(o)
 			onPoint := w.isPoint(o.P) || (o.Kind == "rename" && w.isPoint(o.Q))
+			crossMount := false
+			if o.Kind == "rename" {
+				i1, _ := w.owner(o.P)
+				i2, _ := w.owner(o.Q)
+				crossMount = i1 != i2
+			}
+			if o.Kind == "readdir" && !a.failed() && !b.failed() {
+				// the listing of a directory that holds a mount point comes from the file system the directory lives in:
+				// the entry for the mount point describes the covered directory there (its mode is not the mounted root's)
+				strip := func(x Obs) Obs {
+					es := append([]Entry(nil), x.Entries...)
+					for k := range es {
+						if w.isPoint(joinP(o.P, es[k].Name)) {
+							es[k].Mode &= 1 << 31
+						}
+					}
+					x.Entries = es
+					return x
+				}
+				a, b = strip(a), strip(b)
+			}
 			switch {
 			case a.failed() != b.failed():
 				fail(o.Kind+":success", "the same operation applied to the routed file system directly (one flat tree): %s", b)
 			case !a.failed() && !onPoint && a.coq() != b.coq():
 				fail(o.Kind+":data", "result differs from the direct one: %s", b)
-			case a.failed() && a.Err.coq() != b.Err.coq() && !onPoint:
+			case a.failed() && a.Err.coq() != b.Err.coq() && !onPoint && !crossMount:
 				fail(o.Kind+":error", "error differs from the direct one: %s", b)
+			case a.failed() && crossMount && (a.Err.Kind != "L" || a.Err.Old != o.P || a.Err.New != o.Q):
+				// across two mounts there is no single file system to compare the error class with (the copy fails where it
+				// fails); it must still be a LinkError carrying the caller's two names
+				fail(o.Kind+":error-names", "a failed rename across mounts must return a LinkError with the caller's names, got %s", a)
 			}
 			if d := w.partsDiff(cands); d != "" {
 				fail(o.Kind+":routing", "%s", d)
